@@ -10,6 +10,8 @@ def convert_rustworkx_to_networkx(graph):
         return nx.Graph(edge_list)
     else:
         nx_graph = nx.DiGraph(edge_list)
+        # Nodes without edges (e.g. the root of a tree whose data points are all outliers) are not in the edge list
+        nx_graph.add_nodes_from(node.node_id for node in graph.nodes())
         for node in graph.nodes():
             node_id = node.node_id
             nx_node = nx_graph.nodes[node_id]
